@@ -98,6 +98,13 @@ def html_cat_known(cat_text):
     return ''.join(''.join(m) for m in re.findall(r'([\w\\/()]+)(\[.+?\])*', cat_text)) != cat_text
 
 
+def walk_nodes(t):
+    if not t.is_leaf:
+        yield t
+        for c in t.children:
+            yield from walk_nodes(c)
+
+
 def run(ctx):
     rng = ctx.rng
     ctx.lean = common.check_lean(PID, ctx.thorough)
@@ -151,6 +158,20 @@ def run(ctx):
                 cases.append(('jigg', f'jigg {1 if lang == "ja" else 0} {enc_batch}', 'ok ' + X.canon(etree.fromstring(out.encode('utf-8'))), desc))
             if out is None:
                 continue
+            if f == 'deriv' and words_ok:
+                # the Lean reader of the format (theorem deriv_decode) applied to the REAL text
+                def dview(t):
+                    if t.is_leaf:
+                        return f'L {enc_str(str(t.cat))} {enc_str(t.token["word"])}'
+                    if t.is_unary:
+                        return f'U {enc_str(str(t.cat))} {enc_str(t.op_symbol)} ' + dview(t.children[0])
+                    return f'B {enc_str(str(t.cat))} {enc_str(t.op_symbol)} ' + dview(t.children[0]) + ' ' + dview(t.children[1])
+                recs_d = D.split_records(out)
+                if len(recs_d) == len(flat):
+                    for (_, body), (_, t) in zip(recs_d, flat):
+                        if all(not any(ch in (' ', '\n') for ch in (x.op_symbol or '')) and not (x.op_symbol or '').startswith('-')
+                               for x in walk_nodes(t)):
+                            cases.append(('deriv_dec', 'deriv_dec ' + enc_str(body + '\n'), 'ok ' + dview(t), desc))
             # ---- oracle: decode and compare (only tokens the format can carry) --------------------------
             if f in ('auto', 'auto_extended', 'conll', 'ptb', 'ja', 'deriv') and not words_ok:
                 continue
